@@ -99,6 +99,8 @@ class GateSpec(H.Spec):
                 roots.append(['ctor-meta', v, k])
                 roots.append(['ctor-colmeta', v, k])
                 roots.append(['ctor-colmeta-dict', v, k])
+                roots.append(['ctor-donor-columns', v, k])
+                roots.append(['ctor-donor-metadata', v, k])
         return roots
 
     def fresh(self, root):
@@ -113,8 +115,17 @@ class GateSpec(H.Spec):
                 g = hs.Grid(metadata={'x': mkval(hs, root[2])}, columns=[('c', []), ('d', [])], **kw)
             elif kind == 'ctor-colmeta':
                 g = hs.Grid(columns=[('c', [('x', mkval(hs, root[2]))]), ('d', [])], **kw)
-            else:
+            elif kind == 'ctor-colmeta-dict':
                 g = hs.Grid(columns={'c': {'x': mkval(hs, root[2])}, 'd': {}}, **kw)
+            elif kind == 'ctor-donor-columns':
+                # the README's way to copy a header: hand another grid's column objects to the constructor
+                donor = hs.Grid(version='3.0', columns=[('c', [('x', mkval(hs, root[2]))]), ('d', [])])
+                g = hs.Grid(columns=donor.column, **kw)
+                model['donor'] = donor
+            else:
+                donor = hs.Grid(version='3.0', metadata={'x': mkval(hs, root[2])}, columns=[('c', []), ('d', [])])
+                g = hs.Grid(metadata=donor.metadata, columns=donor.column, **kw)
+                model['donor'] = donor
         except ValueError:
             model['refused_ctor'] = True
             g = hs.Grid(columns=[('c', []), ('d', [])], **kw)
